@@ -452,6 +452,34 @@ func zzC12_mapToFr(n int) {
 	verifReach("mapToFr")
 }
 
+// zzC12_aggregated: the public key of an aggregated private key is the aggregated scalar times the generator,
+// whatever public keys were already computed (cached) in the input key objects -- mode 0 none, 1 only the last,
+// 2 only the first, 3 all
+func zzC12_aggregated(mode int) {
+	var x1, x2 scalar
+	nondetFrStar(&x1)
+	nondetFrStar(&x2)
+	sk1, sk2 := newPrKeyBLSBLS12381(&x1), newPrKeyBLSBLS12381(&x2)
+	if mode == 2 || mode == 3 {
+		_ = sk1.PublicKey()
+	}
+	if mode == 1 || mode == 3 {
+		_ = sk2.PublicKey()
+	}
+	agg, err := AggregateBLSPrivateKeys([]PrivateKey{sk1, sk2})
+	verifAssert(err == nil, "AggregateBLSPrivateKeys")
+	pk := agg.PublicKey()
+	verifAssert(pk == agg.PublicKey(), "PublicKey() returns the cached object")
+	if !agg.(*prKeyBLSBLS12381).scalar.isZero() {
+		dec, err := DecodePrivateKey(BLSBLS12381, agg.Encode())
+		verifAssert(err == nil, "the aggregated key decodes")
+		verifAssert(dec.PublicKey().Equals(pk), "public key of the aggregated key = generator times the aggregated scalar")
+	}
+	sum, _ := AggregateBLSPublicKeys([]PublicKey{newPrKeyBLSBLS12381(&x1).PublicKey(), newPrKeyBLSBLS12381(&x2).PublicKey()})
+	verifAssert(sum.Equals(pk), "and equals the sum of the public keys")
+	verifReach("keygen aggregated")
+}
+
 type c12SlowReader struct{ r io.Reader }
 
 func (s c12SlowReader) Read(p []byte) (int, error) {
